@@ -19,7 +19,7 @@ CHECKS = {
  "C09": dict(tech="runtime monitor: neighbour oracle on Search of every retained key, 16 option sets, fresh/loaded",
              text="Search(k) was observed for every retained key in every option set and compared with (previous retained value | nil, own value, next retained value | nil).",
              ref="3 C09"),
- "C10": dict(tech="runtime monitor: totality/provenance/cross-API consistency assertions on every lookup of hostile query sets; watchdog for non-termination; race-build pass adds checkptr",
+ "C10": dict(tech="runtime monitor: totality/provenance/cross-API consistency assertions on every lookup of hostile query sets; watchdog for non-termination; guard-page sanitizer behind the query string (mmap/mprotect, every fourth query repeated from the last bytes of a readable page); race-build pass adds checkptr",
              text="Get, GetID, RangeGet and Search are called inside recover() with hostile queries (long, all-00/ff, step prefixes, mutations) on tries of all modes, with and without values, empty and single-key, fresh and loaded; any panic, any value not supplied at build time and any disagreement between the APIs is a violation; a lookup that makes no progress for 120 s is reported as non-termination.",
              ref="3 C10"),
  "C13": dict(tech="runtime monitor: metamorphic oracle across the 16 option sets built from the same entries",
@@ -49,13 +49,13 @@ CHECKS = {
  "C15": dict(tech="runtime monitor: independent reference layouts compared on every value; exhaustive 8/16-bit (both tiers) and 32-bit (thorough), dense/boundary sampling otherwise; Encode results overwritten by the caller before re-encoding; concurrent replay on shared encoder objects",
              text="Encode/Decode/GetSize/GetEncodedSize of every encoder are compared with reference layouts written from the statement, with and without trailing bytes; exhaustive for I8/I16/U16 always and for I32/U32 in the thorough tier (every 13th value with random phase in quick).",
              ref="3 C15"),
- "C16": dict(tech="runtime monitor: Go-map oracle across typed/raw/generic accessors and proto round trips; constructor error identity on invalid inputs",
+ "C16": dict(tech="runtime monitor: Go-map oracle across typed/raw/generic accessors and proto round trips, also into long-lived objects with a history; constructor error identity on invalid inputs",
              text="Each generated sparse array is probed at every index of its bitmap span (or present indexes, neighbours and 10^4 random probes for large spans) through 8 accessor paths incl. after marshal/unmarshal into typed and generic types, and compared with a Go map; invalid index lists and length mismatches must be rejected with their dedicated errors and a nil array.",
              ref="3 C16"),
  "C17": dict(tech="runtime monitor: size-bound assertion and metamorphic (K, P+K) relation on marshalled sizes, also after eight in-place reloads, in a process with background churn of all option spellings",
              text="For generated and adversarial key sets (caterpillars, long steps, fan-out 2..12/256, distinct bitmaps, 16 KiB keys) the filter-mode size must stay within 8|K|+256 bytes and prepending prefixes of 1..16000 bytes must change it by at most 16+ceil(|K|/64) bytes.",
              ref="3 C17"),
- "C18": dict(tech="runtime monitor: Stat consistency assertions against the reference model on fresh/loaded/proto-loaded instances, per-level leaf counts cross-checked through GetID, reports of tries built concurrently compared with solo builds (KeyCnt also on legacy-loaded streams in C06)",
+ "C18": dict(tech="runtime monitor: Stat consistency assertions against the reference model on fresh/loaded/proto-loaded instances, per-level leaf counts cross-checked through GetID, reports of tries built concurrently compared with solo builds, Stat after a refused in-place load compared with what the instance still finds (KeyCnt also on legacy-loaded streams in C06)",
              text="KeyCnt equals the retained count, NodeCnt equals the last level total = inner+leaf, columns never decrease, (0,0)/(1,1) for empty/single, Stat is unchanged by a marshal round trip, and every level holds exactly as many leaves as retained keys whose GetID lies in its id range, for every generated case under all 16 option sets; tries built and reloaded by six goroutines at once report what they report alone.",
              ref="3 C18"),
  "C19": dict(tech="runtime monitor: rendering parser (node ids exactly once, leaf lines in key order) + fresh-vs-loaded equality, workloads steered to every short-table size; four goroutines rendering one trie at once",
@@ -103,7 +103,7 @@ def main():
                      "kind_free_text": "runtime monitors over generated/enumerated workloads: reference models, history and metamorphic oracles, fault enumeration, Go race detector (+checkptr), mmap guard pages"}],
         "checks": checks,
         "not_applicable": na,
-        "notes": "All checks: exit 0 held (or inconclusive observation gate, printed as INCONCLUSIVE ... gate=), exit 1 with VIOLATION line, exit 2 inconclusive infrastructure. Honour VERIF_SEED. Six genuine defects of openacid/slim were repaired with fix: commits, listed as fixed in /verif/known_findings.json.",
+        "notes": "All checks: exit 0 held (or inconclusive observation gate, printed as INCONCLUSIVE ... gate=), exit 1 with VIOLATION line, exit 2 inconclusive infrastructure. Honour VERIF_SEED. Seven genuine defects of openacid/slim were repaired with fix: commits, listed as fixed in /verif/known_findings.json.",
     }
     json.dump(m, open('/verif/MANIFEST.json', 'w'), indent=1)
     print("checks:", len(checks), "not_applicable:", len(na))
